@@ -49,7 +49,71 @@ type replayCtx struct {
 	decls   []string
 	ctr     int
 	refVars map[string]string // "ptr:<ref>" -> go variable
+	needReader bool
 }
+
+const replayReader = `
+type govcStep struct {
+	k   int
+	err int // 0 nil, 1 io.EOF, 2 fault
+}
+
+var govcFault = errors.New("govc injected fault")
+
+// govcReader replays the Read schedule of the solver's counterexample; when the schedule is used up it
+// behaves like an in-memory reader.
+type govcReader struct {
+	data    []byte
+	pos     int
+	sched   []govcStep
+	faulted bool
+	calls   int
+}
+
+func (r *govcReader) Read(p []byte) (int, error) {
+	r.calls++
+	if r.faulted {
+		return 0, govcFault
+	}
+	k := len(p)
+	var err error
+	if len(r.sched) > 0 {
+		st := r.sched[0]
+		r.sched = r.sched[1:]
+		k = st.k
+		switch st.err {
+		case 1:
+			err = io.EOF
+		case 2:
+			err = govcFault
+			r.faulted = true
+		}
+	}
+	if k > len(p) {
+		k = len(p)
+	}
+	if k > len(r.data)-r.pos {
+		k = len(r.data) - r.pos
+	}
+	if k < 0 {
+		k = 0
+	}
+	copy(p, r.data[r.pos:r.pos+k])
+	r.pos += k
+	if err == nil && k == 0 && len(p) > 0 {
+		err = io.EOF
+	}
+	if err == io.EOF && r.pos < len(r.data) {
+		err = nil
+		if k == 0 && len(p) > 0 {
+			n := copy(p, r.data[r.pos:r.pos+1])
+			r.pos += n
+			k = n
+		}
+	}
+	return k, err
+}
+`
 
 const replayElems = 48
 
@@ -173,6 +237,63 @@ func (rc *replayCtx) plan(x string, t types.Type, depth int) *cval {
 		sn := u.tc.structName(t)
 		for i := 0; i < st.NumFields(); i++ {
 			c.fields = append(c.fields, rc.plan("("+u.tc.fieldSel(sn, i)+" "+x+")", st.Field(i).Type(), depth+1))
+		}
+	case KIface:
+		if types.TypeString(t, nil) != "io.Reader" {
+			c.kind = "unsupported"
+			return c
+		}
+		c.kind = "stream"
+		id := "(i-val " + x + ")"
+		rc.probes = append(rc.probes, probeReq{"(i-tag " + x + ")", func(v *sx) {
+			r, _ := sxInt(v)
+			c.isNil = r == nil || r.Sign() == 0
+		}})
+		gf := func(name string) string {
+			init := sanitize("GF."+name) + "!init"
+			if u.decl[init] {
+				return "(select " + init + " " + id + ")"
+			}
+			return ""
+		}
+		if t := gf("sn"); t != "" {
+			rc.probes = append(rc.probes, probeReq{t, func(v *sx) {
+				if r, ok := sxInt(v); ok && r.IsInt64() {
+					c.ln = r.Int64()
+				} else {
+					c.ln = 1 << 40
+				}
+			}})
+		}
+		if t := gf("spos"); t != "" {
+			rc.probes = append(rc.probes, probeReq{t, func(v *sx) {
+				if r, ok := sxInt(v); ok && r.IsInt64() {
+					c.off = r.Int64()
+				}
+			}})
+		}
+		if t := gf("sfault"); t != "" {
+			rc.probes = append(rc.probes, probeReq{t, func(v *sx) {
+				c.i, _ = sxInt(v)
+			}})
+		}
+		if t := gf("sdata"); t != "" {
+			sp := gf("spos")
+			for i := 0; i < 2*replayElems; i++ {
+				ec := &cval{kind: "bv", goT: types.Typ[types.Uint8]}
+				rc.probes = append(rc.probes, probeReq{fmt.Sprintf("(select %s (+ %s %d))", t, sp, i), func(v *sx) { ec.i, _ = sxInt(v) }})
+				c.elems = append(c.elems, ec)
+			}
+		}
+		// the schedule: results of the Read calls made on the abstract stream, in order
+		for _, sc := range u.sched {
+			st := &cval{kind: "step"}
+			k := &cval{kind: "int"}
+			e := &cval{kind: "err"}
+			rc.probes = append(rc.probes, probeReq{sc[0], func(v *sx) { k.i, _ = sxInt(v) }})
+			rc.probes = append(rc.probes, probeReq{sc[1], func(v *sx) { e.i, _ = sxInt(v) }})
+			st.fields = []*cval{k, e}
+			c.fields = append(c.fields, st)
 		}
 	case KReal:
 		c.kind = "real"
@@ -337,6 +458,45 @@ func (rc *replayCtx) goExpr(c *cval) (string, error) {
 		rc.refVars[key] = v
 		c.varName = v
 		return v, nil
+	case "stream":
+		if c.isNil {
+			return "io.Reader(nil)", nil
+		}
+		rc.imports["io"] = "io"
+		rc.imports["errors"] = "errors"
+		rem := c.ln - c.off
+		if rem < 0 || rem > int64(len(c.elems)) {
+			return "", fmt.Errorf("stream with %d remaining bytes exceeds the replay cap", rem)
+		}
+		var bs []string
+		for i := int64(0); i < rem; i++ {
+			v := c.elems[i].i
+			if v == nil {
+				v = big.NewInt(0)
+			}
+			bs = append(bs, v.String())
+		}
+		var steps []string
+		for _, st := range c.fields {
+			k, e := st.fields[0].i, st.fields[1].i
+			if k == nil || !k.IsInt64() {
+				k = big.NewInt(0)
+			}
+			ek := 0
+			if e != nil && e.Sign() != 0 {
+				ek = 2
+				if int64(rc.u.eng.errIDs["io.EOF"]) == e.Int64() {
+					ek = 1
+				}
+			}
+			steps = append(steps, fmt.Sprintf("{%s, %d}", k, ek))
+		}
+		pre := 0
+		if c.i != nil && c.i.Sign() != 0 {
+			pre = 1
+		}
+		rc.needReader = true
+		return fmt.Sprintf("io.Reader(&govcReader{data: []byte{%s}, sched: []govcStep{%s}, faulted: %d != 0})", strings.Join(bs, ","), strings.Join(steps, ", "), pre), nil
 	case "struct":
 		st := c.goT.Underlying().(*types.Struct)
 		var fs []string
@@ -641,7 +801,11 @@ func doReplay(e *Engine, u *Unit, o *Obligation, fn *ssa.Function, repo string) 
 	for _, p := range imps {
 		file.WriteString("\t\"" + p + "\"\n")
 	}
-	file.WriteString(")\n" + replayPrelude + "\nfunc TestGovcReplay(t *testing.T) {\n" + body.String() + "}\n")
+	extra := ""
+	if rc.needReader {
+		extra = replayReader
+	}
+	file.WriteString(")\n" + replayPrelude + extra + "\nfunc TestGovcReplay(t *testing.T) {\n" + body.String() + "}\n")
 	harness = file.String()
 
 	// 4. run on the real code
